@@ -337,7 +337,9 @@ def skeleton_tie(prop, set_name, only=None):
 # ------------------------------------------------------------------ regenerated arithmetic (lean/core/Core/GenBlocks.lean)
 
 ARITH_THEOREMS = {"C08": ["Ru.Gen_blocksRange_spec", "Ru.C08_blocks_gen_eq_page", "Ru.C14_blocks_no_slice_panic"],
-                  "C14": ["Ru.Gen_blocksRange_spec", "Ru.C14_blocks_no_slice_panic"]}
+                  "C14": ["Ru.Gen_blocksRange_spec", "Ru.C14_blocks_no_slice_panic"],
+                  "C01": ["Ru.C01_fee_input_step", "Ru.C01_fee_output_step", "Ru.C01_fee_outputs_loop", "Ru.C01_fee_final"]}
+ARITH_MODULE = {"C08": "Core.Props.C08gen", "C14": "Core.Props.C08gen", "C01": "Core.Props.C01gen"}
 
 
 def arith_tie(prop):
@@ -347,7 +349,9 @@ def arith_tie(prop):
     the tree checked is a scratch tree."""
     import hashlib
     gen = LEAN / "core" / "Core" / "GenBlocks.lean"
-    src = REPO / "validatornode" / "application" / "verification" / "blockchain.go"
+    src = REPO / "validatornode" / "application" / "verification" / ("utxos_registry.go" if prop == "C01" else "blockchain.go")
+    mod = ARITH_MODULE[prop]
+    what = "(*UtxosRegistry).CalculateFee" if prop == "C01" else "(*Blockchain).Blocks"
     obligations, failures, theorems = [], [], []
     ok, binary, log = go_build("ruextract-arith")
     if not ok:
@@ -361,31 +365,31 @@ def arith_tie(prop):
                      "source_sha256": hashlib.sha256(src.read_bytes()).hexdigest() if src.exists() else None,
                      "translator": "harness/cmd/ruextract-arith", "regenerated_this_run": text is not None,
                      "identical_to_previous_copy": (text == committed) if text is not None else None}
-        obligations.append({"name": "translator ruextract-arith accepts (*Blockchain).Blocks (fail-closed)", "ok": text is not None})
+        obligations.append({"name": "translator ruextract-arith accepts (*Blockchain).Blocks and (*UtxosRegistry).CalculateFee (fail-closed)", "ok": text is not None})
         if text is None:
             failures.append(failure(
                 "tie", f"{prop}/tie/arith/translator-rejects-source",
-                "the Go→Lean translator rejects the current (*Blockchain).Blocks (a construct outside the translated fragment), so "
-                "Gen.blocksRange cannot be regenerated and C14_blocks_no_slice_panic / C08_blocks_gen_eq_page are no longer about "
-                "the code: " + err[-600:], {"no_longer_checks": ARITH_THEOREMS[prop], "translator_error": err[-1500:]}, False))
+                "the Go→Lean translator rejects the current (*Blockchain).Blocks / (*UtxosRegistry).CalculateFee (a construct outside "
+                "the translated fragment), so the Gen.* definitions cannot be regenerated and " + ", ".join(ARITH_THEOREMS[prop]) +
+                " are no longer about the code: " + err[-600:], {"no_longer_checks": ARITH_THEOREMS[prop], "translator_error": err[-1500:]}, False))
             return generated, obligations, failures, theorems
         wrote = False
         try:
             if text != committed:
                 gen.write_text(text)
                 wrote = True
-            okb, blog = lake_build(LEAN / "core", ["Core.Props.C08gen"])
+            okb, blog = lake_build(LEAN / "core", [mod])
             axmap = {}
             if okb:
                 audit_file = WORK / f"Arith-{prop}.lean"
                 audit_file.parent.mkdir(parents=True, exist_ok=True)
-                audit_file.write_text("-- generated by vlib.arith_tie; do not edit\nimport Core.Props.C08gen\n\n" +
+                audit_file.write_text("-- generated by vlib.arith_tie; do not edit\nimport " + mod + "\n\n" +
                                       "\n".join(f"#print axioms {t}" for t in ARITH_THEOREMS[prop]) + "\n")
                 aok, axmap, alog = audit(LEAN / "core", str(audit_file))
             for t in ARITH_THEOREMS[prop]:
                 ent = {"name": t, "axioms": axmap.get(t), "ok": False, "why": ""}
                 if not okb:
-                    ent["why"] = "no longer checks over the definition regenerated from blockchain.go"
+                    ent["why"] = "no longer checks over the definitions regenerated from " + src.name
                 elif t not in axmap:
                     ent["why"] = "theorem missing from audit output"
                 elif [a for a in axmap[t] if a not in ALLOWED_AXIOMS]:
@@ -394,18 +398,17 @@ def arith_tie(prop):
                     ent["ok"] = True
                 theorems.append(ent)
             allok = okb and all(t["ok"] for t in theorems)
-            obligations.append({"name": "theorems over the regenerated Gen.blocksRange (no slice panic for all 2^64 heights; "
-                                        "the code's slice = the model's page)", "ok": allok})
+            obligations.append({"name": f"theorems of {mod} over the arithmetic of {what} regenerated from the source", "ok": allok})
             if not allok:
                 failures.append(failure(
-                    "proof", f"{prop}/theorem/arith/Gen.blocksRange",
-                    "the theorems of Core/Props/C08gen.lean no longer check over the Blocks arithmetic regenerated from the "
-                    "current blockchain.go:\n" + text[-1500:] + "\n" + (blog[-1200:] if not okb else ""),
+                    "proof", f"{prop}/theorem/arith/" + ("Gen.fee" if prop == "C01" else "Gen.blocksRange"),
+                    f"the theorems of {mod} no longer check over the arithmetic of {what} regenerated from the current "
+                    f"{src.name}:\n" + text[-1800:] + "\n" + (blog[-1200:] if not okb else ""),
                     {"no_longer_checks": ARITH_THEOREMS[prop], "generated": text, "build_log": blog[-3000:] if not okb else ""}, False))
         finally:
             if wrote and _alt_repo():
                 gen.write_text(committed)
-                lake_build(LEAN / "core", ["Core.Props.C08gen"])
+                lake_build(LEAN / "core", [mod])
     return generated, obligations, failures, theorems
 
 
